@@ -27,6 +27,7 @@ type ProgOpts struct {
 	Lists     bool
 	Let       bool
 	Do        bool // aggregating rules
+	DoPercent int  // percent of eligible predicates that aggregate
 	Unguarded bool // drop termination guards (C17)
 	Wildcards bool
 	Shuffle   int // percent of rules whose premises are fully shuffled
@@ -100,7 +101,11 @@ func (c *ruleCtx) posAtom(p PredSig) LitV {
 		default:
 			v := c.fresh(s)
 			l.Args = append(l.Args, VarT(v))
-			defer c.bind(s, v)
+			if c.r.Intn(4) == 0 {
+				c.bind(s, v) // may repeat inside this atom: p(X,X)
+			} else {
+				defer c.bind(s, v)
+			}
 		}
 	}
 	return l
@@ -177,7 +182,7 @@ func RandProgram(r *rand.Rand, o ProgOpts) ProgramV {
 		if !ps.IDB {
 			continue
 		}
-		if o.Do && ps.Level >= 2 && len(ps.Sorts) >= 1 && len(ps.Sorts) <= 3 && r.Intn(3) == 0 {
+		if o.Do && ps.Level >= 2 && len(ps.Sorts) >= 1 && len(ps.Sorts) <= 3 && r.Intn(100) < o.DoPercent {
 			aggPreds[ps.Name] = true
 		}
 	}
@@ -188,22 +193,27 @@ func RandProgram(r *rand.Rand, o ProgOpts) ProgramV {
 		nr := 1 + r.Intn(maxRules)
 		for k := 0; k < nr; k++ {
 			if aggPreds[ps.Name] {
+				if k > 0 && r.Intn(4) == 0 {
+					// a plain, non-recursive rule for the same head
+					p.Rules = append(p.Rules, randRule(r, o, p, ps, aggPreds, true))
+					continue
+				}
 				if c, ok := randDoRule(r, o, p, ps, aggPreds); ok {
 					p.Rules = append(p.Rules, c)
 				}
 				continue
 			}
-			p.Rules = append(p.Rules, randRule(r, o, p, ps, aggPreds))
+			p.Rules = append(p.Rules, randRule(r, o, p, ps, aggPreds, false))
 		}
 	}
 	return p
 }
 
-func randRule(r *rand.Rand, o ProgOpts, p ProgramV, head PredSig, aggPreds map[string]bool) ClauseV {
+func randRule(r *rand.Rand, o ProgOpts, p ProgramV, head PredSig, aggPreds map[string]bool, lowerOnly bool) ClauseV {
 	c := &ruleCtx{r: r, o: o, vars: map[string][]string{}, sorts: map[string]string{}}
 	var cands []PredSig
 	for _, q := range p.Preds {
-		if !q.IDB || q.Level < head.Level || (q.Level == head.Level && !aggPreds[q.Name]) {
+		if !q.IDB || q.Level < head.Level || (q.Level == head.Level && !aggPreds[q.Name] && !lowerOnly) {
 			cands = append(cands, q)
 		}
 	}
@@ -423,6 +433,36 @@ func randDoRule(r *rand.Rand, o ProgOpts, p ProgramV, head PredSig, aggPreds map
 		return ClauseV{}, false
 	}
 	headL.Args = append(headL.Args, VarT("R"))
-	cl := ClauseV{Head: headL, Body: body, Transforms: [][]StmtV{{{Fn: FnT("fn:group_by", keys...)}, stmt}}}
+	stmts := []StmtV{{Fn: FnT("fn:group_by", keys...)}, stmt}
+	// second reducer replacing the last key column
+	if nk >= 1 && head.Sorts[nk-1] == "num" && len(c.vars["num"]) > 0 && r.Intn(4) == 0 {
+		red2 := []string{"fn:count", "fn:sum", "fn:min", "fn:max"}[r.Intn(4)]
+		var fn TermV
+		if red2 == "fn:count" {
+			fn = FnT(red2)
+		} else {
+			fn = FnT(red2, VarT(c.vars["num"][r.Intn(len(c.vars["num"]))]))
+		}
+		dropped := headL.Args[nk-1]
+		headL.Args[nk-1] = VarT("R2")
+		stmts = append(stmts, StmtV{Var: "R2", Fn: fn})
+		// remove the dropped key from group_by if no other head column uses it
+		still := false
+		for i := 0; i < nk-1; i++ {
+			if headL.Args[i].Name == dropped.Name {
+				still = true
+			}
+		}
+		if !still {
+			var nkeys []TermV
+			for _, k := range keys {
+				if k.Name != dropped.Name {
+					nkeys = append(nkeys, k)
+				}
+			}
+			stmts[0] = StmtV{Fn: FnT("fn:group_by", nkeys...)}
+		}
+	}
+	cl := ClauseV{Head: headL, Body: body, Transforms: [][]StmtV{stmts}}
 	return cl, true
 }
